@@ -428,7 +428,7 @@ def run_machine(ctx, max_examples, step_count, fast_only=False, dtypes=None):
                 self._do(s2)
 
         def _do(self, step):
-            if ctx.expired():
+            if "fail" not in holder and ctx.expired():   # the budget stops the search only; shrink/replay runs stay deterministic
                 return
             try:
                 self.ex.run([step], self.r)
@@ -481,7 +481,9 @@ def run_machine(ctx, max_examples, step_count, fast_only=False, dtypes=None):
     try:
         with contextlib.redirect_stdout(io.StringIO()):
             run_state_machine_as_test(M, settings=sett)
-    except Violation:
+    except BaseException as e:  # Violation, or Hypothesis' Flaky/ExceptionGroup wrapping it
+        if isinstance(e, (KeyboardInterrupt, SystemExit, MemoryError)) or "fail" not in holder:
+            raise
         steps, (bucket, msg) = holder["fail"]
         ctx.violations.append({"bucket": bucket, "msg": msg, "case": {"sub": "seq", "steps": steps}})
     ctx.nt_digests.update("%s|%s|%s|%s|%s" % k for k in seen)
